@@ -3,7 +3,7 @@
 From Coq Require Import ZArith List Bool.
 From Verif Require Import Lib.Sx Lib.PyStr Lib.PosixPath Lib.WinPath Model.Paths Model.PathsWin Model.PathsSess
   Model.ResolveCheck Proofs.PosixPathFacts Proofs.Paths Proofs.PathsWin Proofs.PathsSess.
-From Verif Require Gen.Resolve.
+From Verif Require Gen.Resolve Gen.Dispatch.
 Import ListNotations.
 Open Scope Z_scope.
 
@@ -191,37 +191,54 @@ Theorem C02_get_paths_reads_only_user_and_cwd :
 Proof. vm_compute. reflexivity. Qed.
 Print Assumptions C02_get_paths_reads_only_user_and_cwd.
 
+(* the transfers (LIST MLSD RETR STOR APPE) are carried out by a worker task when the data connection has arrived;
+   the path it hands to the backend is the real_path the handler resolved when the command was handled -- bound once,
+   by get_paths(connection, rest), before the task exists -- and never one resolved again later (after a CWD or a
+   re-login): the location addressed is base ++ normalize(cwd at the command, argument).  Same closed check as
+   C04_workers_use_authorised_path; the behaviour is proved in Props/C04.v (C04_transfer_target_today). *)
+Theorem C02_transfers_use_the_path_resolved_at_the_command :
+  check_worker_paths Gen.Resolve.worker_paths Gen.Resolve.handler_resolves = true.
+Proof. vm_compute. reflexivity. Qed.
+Print Assumptions C02_transfers_use_the_path_resolved_at_the_command.
+
+(* Server.user() drops a pending rename source (repair of F18, /repo 8b539d4): a closed check on the
+   regenerated handler facts -- it computes false on the former shape of user(), whose `del` statements were
+   only `user` and `logged` *)
+Theorem C02_user_drops_rename_source :
+  user_drops_rename_source Gen.Dispatch.handlers = true.
+Proof. vm_compute. reflexivity. Qed.
+Print Assumptions C02_user_drops_rename_source.
+
+(* hence no path resolved under a PREVIOUS login is ever handed to the backend after a re-login: every
+   labelled output of every command of every history is owned by the user logged in when the command ran
+   (former finding F18: RNFR; re-login; RNTO used the old user's real path) *)
+Theorem C02_session_no_path_from_previous_login : forall users i u h,
+  homes_ok users -> nth_error users i = Some u ->
+  Forall (fun co => Forall (fun l => l_owner l = fst co) (snd co)) (pspec_run users (spec_start i u) h).
+Proof. exact session_owner_current. Qed.
+Print Assumptions C02_session_no_path_from_previous_login.
+
 (* FULL STATEMENT (does not hold): every path handed to the backend by a command lies inside the
    base directory of the user logged in when the command runs:
      Forall (fun bo => Forall (fun p => confined (fst bo) p = true) (snd bo)) (sess_run users (sess_start u) h).
-   Refuted twice by the faithful model (both replayed on the real server by harness/props/c02.py):
-   F18  RNFR as one user, re-login, RNTO: the rename source is the OLD user's real path;
+   Refuted by the faithful model (replayed on the real server by harness/props/c02.py):
    F19  STOR/APPE whose target is the virtual root: is_dir(base_path.parent) is asked. *)
-Theorem C02_session_rnfr_carried_refuted :
-  exists users i u h, homes_ok users /\ nth_error users i = Some u /\
-    Exists (fun bo => Exists (fun p => confined (fst bo) p = false) (snd bo)) (sess_run users (sess_start u) h).
-Proof. exact rnfr_carried_refuted. Qed.
-Print Assumptions C02_session_rnfr_carried_refuted.
-
 Theorem C02_session_stor_root_parent_refuted :
   exists users i u h, homes_ok users /\ nth_error users i = Some u /\
     Exists (fun bo => Exists (fun p => confined (fst bo) p = false) (snd bo)) (sess_run users (sess_start u) h).
 Proof. exact stor_root_parent_refuted. Qed.
 Print Assumptions C02_session_stor_root_parent_refuted.
 
-(* PARTIAL: every output OWNED by the current user (i.e. resolved under the current login -- all of
-   them except a rename source recorded before a re-login) that is not the parent probe of the
-   virtual root lies inside the current user's base.  Missing for the full statement: exactly
-   those two shapes. *)
+(* PARTIAL, on the handler model itself, for EVERY history (logins, CWD/CDUP, path commands, STOR/APPE,
+   RNFR/RNTO): every path handed to the backend lies inside the base of the user logged in when the command
+   ran, or is exactly the parent of that base (the probe of F19).  Missing for the full statement: that one shape. *)
 Theorem C02_session_confined_partial : forall users i u h, homes_ok users -> nth_error users i = Some u ->
-  Forall (fun co =>
-            Forall (fun l => l_owner l = fst co -> (l_parent l = false \/ l_names l <> []) ->
-                             confined (base_of users (fst co)) (realise users l) = true) (snd co))
-         (pspec_run users (spec_start i u) h).
-Proof. exact session_confined_partial. Qed.
+  Forall (fun bo => Forall (fun p => confined (fst bo) p = true \/ p = parent (fst bo)) (snd bo))
+         (sess_run users (sess_start u) h).
+Proof. exact session_confined. Qed.
 Print Assumptions C02_session_confined_partial.
 
-(* on the handler model itself: histories of logins, CWD/CDUP, single-path commands and RNFR *)
+(* histories without STOR/APPE: the full statement *)
 Theorem C02_session_confined_plain : forall users i u h, homes_ok users -> nth_error users i = Some u ->
   forallb plain_ev h = true ->
   Forall (fun bo => Forall (fun p => confined (fst bo) p = true) (snd bo)) (sess_run users (sess_start u) h).
